@@ -333,7 +333,10 @@ func emitText(cw *caseWriter, prop string, to []colDesc, line []byte, asBytes bo
 
 var weirdKeys = []string{"a", "b", "zz", "aa", "", " ", "a b", "a.b", "\"", "\\", "/", "<k>", "&", "\x00", "\x01", "\x07", "\x0b", "\x1f", "\n", "\t", "\r", "\x7f",
 	"\u0080", "\u009f", "\u00ad", "\u00e9", "\u2028", "\u2029", "\ufeff", "\ufffd", "\ufffe", "\U0001F600", "\U000E0001", "\U0010FFFF", "\U000F0000",
-	"\xff", "\xc0\x80", "\xed\xa0\x80", "\xe2\x82", "k\xffk", "\u65e5\u672c", "\u043a\u043b\u044e\u0447", "'", "`"}
+	"\xff", "\xc0\x80", "\xed\xa0\x80", "\xe2\x82", "k\xffk", "\u65e5\u672c", "\u043a\u043b\u044e\u0447", "'", "`",
+	// a literal backslash in front of text that looks like an escape (a Windows path, doubly encoded JSON): whatever
+	// post-processes the encoder's output must not take the encoded backslash for the start of an escape
+	`\u0026`, `\u003c`, `\u003e`, `C:\users\u0026co\new`, `\n`, `\"`, `\\`, `\u00e9`, `x\`, `\/`, `<\u003c>`, `&amp;\u0026`}
 
 var plainKeys = []string{"a", "b", "c", "d", "zz", "aa", "q", "m"}
 
@@ -681,15 +684,24 @@ func orderObject(r *rng, cols []colDesc, permute bool) string {
 	seen := map[string]bool{}
 	var parts []string
 	for _, m := range ms {
-		if seen[m.k] {
+		if seen[m.k] && !(orderDups && r.chance(1, 2)) {
 			continue
 		}
 		seen[m.k] = true
 		kb, _ := json.Marshal(m.k)
 		parts = append(parts, string(kb)+":"+m.v)
 	}
+	if orderDups && len(ms) > 0 && r.chance(1, 4) {
+		// a name that comes back later in the same object, with other members in between ("first appearance")
+		m := ms[r.intn(len(ms))]
+		kb, _ := json.Marshal(m.k)
+		parts = append(parts, string(kb)+":"+pick(r, orderValues))
+	}
 	return "{" + strings.Join(parts, ",") + "}"
 }
+
+// orderDups lets orderObject repeat member names (C03: undeclared keys are listed in order of FIRST appearance).
+var orderDups bool
 
 func permutations(n int) [][]int {
 	if n == 0 {
@@ -746,6 +758,18 @@ func genC03(cw *caseWriter, seed uint64, tier string) {
 		}
 	}
 	cw.extra["exhaustive_permutations_up_to"] = maxk
+	// names that come back later in the same object, at top level, in nested objects and in objects of arrays,
+	// declared and undeclared, with other new names in between
+	dupCols := []colDesc{{name: "aa", format: "auto", ty: "none"}, {name: "n", format: "numeric", ty: "none"}, {name: "h", format: "hidden", ty: "none"}}
+	for _, l := range []string{`{"x":1,"y":2,"x":3}`, `{"x":1,"y":2,"x":3,"z":4,"y":5}`, `{"o":{"q":1,"p":2,"q":3}}`, `{"arr":[{"q":1,"p":2,"q":3}]}`, `{"x":1,"aa":1,"y":2,"x":3,"aa":2}`,
+		`{"aa":{"q":1,"p":2,"q":3},"x":1}`, `{"x":{"k":1},"y":2,"x":{"j":3}}`, `{"x":1,"x":2}`, `{"n":"bad","w":1,"n":7,"v":2,"w":3}`, `{"n":7,"w":1,"n":"bad"}`, `{"h":1,"x":2,"h":3,"y":4,"x":5}`, `{"y":1,"x":2,"y":null,"x":null}`} {
+		emitLine(cw, "C03", nil, nil, []byte(l), true)
+		emitLine(cw, "C03", dupCols, dupCols, []byte(l), true)
+		emitLine(cw, "C03", nil, dupCols, []byte(l), true)
+		emitText(cw, "C03", dupCols, []byte(l), true)
+	}
+	orderDups = true
+	defer func() { orderDups = false }()
 	n := 4000
 	if tier == "thorough" {
 		n = 100000
